@@ -103,6 +103,19 @@ fn judge<T: Fl>(a: Interval<T>, b: Interval<T>, eps: T, rel: T, ulps: u32, case:
     chk("abs_diff_eq", a.abs_diff_eq(&b, eps), b.abs_diff_eq(&a, eps), w_abs, l);
     chk("relative_eq", a.relative_eq(&b, eps, rel), b.relative_eq(&a, eps, rel), w_rel, l);
     chk("ulps_eq", a.ulps_eq(&b, eps, ulps), b.ulps_eq(&a, eps, ulps), w_ulp, l);
+    // the negated entry points (abs_diff_ne / relative_ne / ulps_ne and the assert_*_ne! macros built on
+    // them) are the complements, in both argument orders
+    for (m, ne, ne_rev, eq) in [
+        ("abs_diff_ne", a.abs_diff_ne(&b, eps), b.abs_diff_ne(&a, eps), w_abs),
+        ("relative_ne", a.relative_ne(&b, eps, rel), b.relative_ne(&a, eps, rel), w_rel),
+        ("ulps_ne", a.ulps_ne(&b, eps, ulps), b.ulps_ne(&a, eps, ulps), w_ulp),
+    ] {
+        l.eval();
+        l.count("negated comparison judged");
+        if ne == eq || ne_rev == eq {
+            l.violation(format!("{}|{}x{}|not-the-complement|got={}", m, ka, kb, ne), format!("{} on ({}, {}) is not the negation of the kind-aware bound-wise relation", m, ka, kb), case(), det(m, ne, !eq));
+        }
+    }
     // implied by exact equality; reflexive
     if a == b {
         l.eval();
@@ -246,6 +259,7 @@ pub fn run(run: &Arc<Run>) {
             req.push(format!("f32:{}x{}", a, b));
         }
     }
+    req.push("negated comparison judged".to_string());
     let r: Vec<&str> = req.iter().map(|s| s.as_str()).collect();
     run.require(&r);
 }
